@@ -11,6 +11,7 @@ import Nlmodel.Proofs.Lemmas.AlphaTop
 import Nlmodel.Proofs.Lemmas.AlphaOnTop
 import Nlmodel.Proofs.Lemmas.NameEvalC09
 import Nlmodel.Proofs.Lemmas.NameEvalFnMain
+import Nlmodel.Proofs.Lemmas.NameEvalHC09
 namespace Nl
 namespace C09
 
@@ -254,6 +255,29 @@ theorem C09_call_keeps_callers_activation (f : Nat) (fe : Expr) (as : Exprs) (st
     (fv v : NameEvalFn.NVal) (h1 : NameEvalFn.evalEs f as st = .val xs st1) (h2 : NameEvalFn.evalE f fe st1 = .val fv st2)
     (h : NameEvalFn.evalE (f + 1) (.call fe as) st = .val v st') : st'.locals = st2.locals ∧ st'.vis = st2.vis :=
   NameEvalFn.call_keeps_caller_activation f fe as st st1 st2 st' xs fv v h1 h2 h
+
+/-! ### ... and with HEAP VALUES and BUILTINS (`Spec/NameEvalH.lean`, `Lemmas/NameEvalH*.lean`)
+
+The whole function-free language (`SimH.SHB false`: stage 3 plus float, string and list literals, indexing and index assignment with
+aliasing, all operators on all value kinds, the seven builtins INCLUDING `print`): the name-based evaluator shares the value operations
+with the semantics (`sIndexGet/sIndexSet`, `binopCore`, `builtinCore`, `printLine` on the same store) — the point is independence from
+the RESOLVER — and here the OUTPUT is a real observation. -/
+
+/-- for every function-free program: the resolver rejects it exactly when the static name rule does (with a reference error, the only
+    error it can give), and otherwise value, OUTPUT, error, out-of-fuel and unspecified all agree between the name-based semantics on the
+    source tree and the definitional semantics on the resolved tree, for every fuel -/
+theorem C09_resolver_implements_name_scoping_with_heap_values (ast : Block) (hs : SimH.SHB false ast) :
+    ((resolveProgram ast = .error .reference ↔ NameEvalH.declared [[]] ast = false) ∧
+     ((∃ r, resolveProgram ast = .ok r) ↔ NameEvalH.declared [[]] ast = true) ∧
+     (∀ e, resolveProgram ast = .error e → e = .reference)) ∧
+    (∀ r, resolveProgram ast = .ok r → ∀ F, NameEvalH.evalProgram F ast = Spec.evalProgram F r) :=
+  ⟨NameEvalH.resolver_agrees_with_declared ast hs, fun r h F => NameEvalH.nameEval_eq_spec ast hs r h F⟩
+
+/-- non-vacuity (TEST): two names of one list, shadowing by a text in a block, a text modified in place, `print` with placeholders,
+    `lengte`: value 15 and the two printed lines on both sides, and the theorem applies for every fuel -/
+theorem C09_name_scoping_with_heap_values_example :
+    ∃ r, resolveProgram NameEvalH.demo = .ok r ∧ ∀ F, NameEvalH.evalProgram F NameEvalH.demo = Spec.evalProgram F r :=
+  NameEvalH.demo_agree
 
 end C09
 end Nl
